@@ -154,7 +154,7 @@ class ListV:
                 return self.over[idx]
             if idx < 0 and self.length[1] == 0 and (self.length[0] + idx) in self.over:
                 return self.over[self.length[0] + idx]
-        if self.default is not None and not self.extra:
+        if self.default is not None and not self.extra and not self.over:
             return self.default
         vals = list(self.over.values()) + self.extra + ([self.default] if self.default is not None else [])
         out = vals[0] if vals else {}
@@ -164,6 +164,13 @@ class ListV:
 
     def __repr__(self):
         return f"ListV(len={self.length}, default={fmt(self.default) if self.default is not None else None}, over={ {k: fmt(v) for k, v in self.over.items()} })"
+
+
+class PosList:
+    """[i for i in range(len(L)) if i != k]: the positions of list L except one"""
+
+    def __init__(self, of: str, length, skip):
+        self.of, self.length, self.skip = of, length, skip
 
 
 class Other:
@@ -244,6 +251,19 @@ class Evaluator:
             return env.get(e.id, Other())
         if isinstance(e, ast.Tuple) or isinstance(e, ast.List):
             if any(isinstance(x, ast.Starred) for x in e.elts):
+                # [a, b, *L]: exact leading elements followed by the elements of a tracked list
+                if isinstance(e, ast.List) and isinstance(e.elts[-1], ast.Starred) and not any(isinstance(x, ast.Starred) for x in e.elts[:-1]):
+                    tail = self.ev(e.elts[-1].value, env)
+                    heads = [self.ev(x, env) for x in e.elts[:-1]]
+                    if isinstance(tail, ListV) and tail.length[0] != "?" and not tail.extra and all(isinstance(h, Deg) for h in heads):
+                        k = len(heads)
+                        over = {i: h.v for i, h in enumerate(heads)}
+                        for i, v in tail.over.items():
+                            if isinstance(i, int):
+                                over[i + k] = v
+                            else:
+                                return Other()
+                        return ListV((tail.length[0] + k, tail.length[1]), tail.default if tail.default is not None else tail.elem(), over)
                 return Other()
             vals = [self.ev(x, env) for x in e.elts]
             if vals and all(isinstance(v, (Deg,)) or (isinstance(v, Other) and not isinstance(e, ast.List)) for v in vals) and any(isinstance(v, Deg) for v in vals) and isinstance(e, ast.List):
@@ -374,7 +394,8 @@ class Evaluator:
         if isinstance(e, ast.Call):
             return self.call(e, env)
         if isinstance(e, ast.Compare) or isinstance(e, ast.BoolOp):
-            return Other()
+            d = self.decide(e, env)  # `flag = mask is not None`: a flag whose value the configuration fixes
+            return Other(d) if d is not None else Other()
         return Other()
 
     def comprehension(self, e, env):
@@ -384,6 +405,30 @@ class Evaluator:
         it = g.iter
         enum = isinstance(it, ast.Call) and is_name(it.func, "enumerate") and it.args
         src_list = self.ev(it.args[0] if enum else it, env)
+        # positions of a list, one left out:  [i for i in range(len(L)) if i != k]
+        if isinstance(it, ast.Call) and is_name(it.func, "range") and len(it.args) == 1 and isinstance(it.args[0], ast.Call) and is_name(it.args[0].func, "len") and it.args[0].args and isinstance(it.args[0].args[0], ast.Name) and isinstance(g.target, ast.Name) and is_name(e.elt, g.target.id):
+            base = env.get(it.args[0].args[0].id)
+            if isinstance(base, ListV) and base.length[0] != "?":
+                if not g.ifs:
+                    return PosList(it.args[0].args[0].id, base.length, None)
+                c = g.ifs[0]
+                if len(g.ifs) == 1 and isinstance(c, ast.Compare) and len(c.ops) == 1 and isinstance(c.ops[0], ast.NotEq) and is_name(c.left, g.target.id):
+                    return PosList(it.args[0].args[0].id, (base.length[0] - 1, base.length[1]), src(c.comparators[0]))
+        # [L[i] for i in P] with P the positions of L (one left out)
+        if isinstance(src_list, PosList) and isinstance(g.target, ast.Name) and not g.ifs and isinstance(e.elt, ast.Subscript) and is_name(e.elt.value, src_list.of) and is_name(e.elt.slice, g.target.id):
+            base = env.get(src_list.of)
+            if isinstance(base, ListV) and base.length[0] != "?":
+                if src_list.skip is None:
+                    return base
+                kk = None
+                try:
+                    kk = int(src_list.skip)
+                except ValueError:
+                    pass
+                if kk is not None and kk in base.over:
+                    over = {(i if i < kk else i - 1): v for i, v in base.over.items() if isinstance(i, int) and i != kk}
+                    return ListV(src_list.length, base.default, over, [])
+                return ListV(src_list.length, base.default if base.default is not None else base.elem(), {}, [])
         if isinstance(it, ast.Call) and is_name(it.func, "zip") and len(it.args) >= 2 and not g.ifs:
             zs = [self.ev(a, env) for a in it.args]
             if all(isinstance(z, ListV) for z in zs):
@@ -461,6 +506,22 @@ class Evaluator:
     def bind_target(self, t, v, env):
         if isinstance(t, ast.Name):
             env[t.id] = v
+        elif isinstance(t, (ast.Tuple, ast.List)) and any(isinstance(x, ast.Starred) for x in t.elts):
+            # first, *rest = L   /   *init, last = L
+            stars = [i for i, x in enumerate(t.elts) if isinstance(x, ast.Starred)]
+            if len(stars) == 1 and isinstance(v, ListV) and v.length[0] != "?" and not v.extra and all(isinstance(k, int) for k in v.over):
+                si = stars[0]
+                n_before, n_after = si, len(t.elts) - si - 1
+                for i in range(n_before):
+                    self.bind_target(t.elts[i], Deg(v.elem(i)), env)
+                for j in range(n_after):
+                    self.bind_target(t.elts[si + 1 + j], Deg(v.default if v.default is not None else v.elem()), env)
+                over = {k - n_before: d for k, d in v.over.items() if k >= n_before}
+                rest = ListV((v.length[0] - n_before - n_after, v.length[1]), v.default if v.default is not None else v.elem(), over)
+                self.bind_target(t.elts[si].value, rest, env)
+            else:
+                for x in t.elts:
+                    self.bind_target(x.value if isinstance(x, ast.Starred) else x, ListV(("?", 0), degree_of(v), {}) if isinstance(x, ast.Starred) and isinstance(v, (ListV, Deg)) else (Deg(degree_of(v)) if isinstance(v, (ListV, Deg)) else Other()), env)
         elif isinstance(t, (ast.Tuple, ast.List)):
             parts = None
             if isinstance(v, tuple) and v[0] == "tuple" and len(v[1]) == len(t.elts):
@@ -681,7 +742,9 @@ class Evaluator:
                 b = bind_call(c, g, ct.bound)
                 sub = Evaluator(self.ctx, g, self.config, self.depth + 1)
                 sub.ctx_returns, sub.solver_prims, sub.track_sign, sub.svd_prims = self.ctx_returns, self.solver_prims, self.track_sign, self.svd_prims
-                env2 = {}
+                # a helper nested in the current function is a closure: its free variables are the caller's locals
+                nested_here = any(g is h for hs in getattr(self.f, "nested_all", {}).values() for h in hs) or any(g is h for h in getattr(self.f, "nested", {}).values())
+                env2 = dict(env) if nested_here else {}
                 for p in g.all_params:
                     if p in b.params:
                         env2[p] = self.ev(b.params[p], env)
@@ -708,7 +771,9 @@ class Evaluator:
                             out.append(col[0] if len(col) == 1 else Other())
                     return ("tuple", out)
                 main = [v for _, v, nf in sub.returns if isinstance(v, Deg) and nf is None]
-                special = [(v, nf) for _, v, nf in sub.returns if isinstance(v, Deg) and nf is not None]
+                special = [(v, nf) for _, v, nf in sub.returns if isinstance(v, Deg) and nf is not None and nf != "?"]
+                if any(nf == "?" for _, v, nf in sub.returns):
+                    return Deg(Top(f"a return of {g.name} sits under a length test the analysis cannot resolve"))
                 if main:
                     t = main[0].v
                     for v in main[1:]:
@@ -918,8 +983,16 @@ class Evaluator:
             lo = _int_const(it.args[0]) if len(it.args) == 2 else 0
             if isinstance(hi, Other) and hi.count is not None and lo is not None:
                 counted = (hi.count[0] - lo, hi.count[1])
+        plist = None
+        if pos_of is None and counted is None and isinstance(it, (ast.Name, ast.ListComp)) and isinstance(s.target, ast.Name):
+            pv = self.ev(it, env)
+            if isinstance(pv, PosList) and isinstance(env.get(pv.of), ListV):
+                plist = pv
+                pos_of = pv.of
         if pos_of is not None:
             lst = env[pos_of]
+            if plist is not None:
+                lst = ListV(plist.length, lst.default, lst.over, lst.extra)
         elif counted is not None:
             lst = Other()
         else:
@@ -931,6 +1004,8 @@ class Evaluator:
                 zipped = zs
                 lst = zs[0] if all(z.length == zs[0].length for z in zs) else ListV(("?", 0), zs[0].elem(), {})
         length = lst.length if isinstance(lst, ListV) else (counted if counted is not None else ("?", 0))
+        if plist is not None:
+            length = plist.length
         iter_name = pos_of or (it.args[0].id if enum and isinstance(it.args[0], ast.Name) else (it.id if isinstance(it, ast.Name) else None))
         if pos_of is not None or counted is not None:
             idx = s.target.id
@@ -985,6 +1060,8 @@ class Evaluator:
         e0 = dict(env)
         n_peeled = 0
         gen_elem = Other()
+        if isinstance(lst, Deg):
+            gen_elem = Deg(lst.v)  # iterating over an array: each slice has the degree of the array
         if isinstance(lst, ListV):
             gen_elem = Deg(lst.default if lst.default is not None else lst.elem())
         if zipped is not None:
@@ -994,6 +1071,8 @@ class Evaluator:
         peel = []
         if zipped is not None:
             pass
+        elif isinstance(lst, ListV) and length[0] != "?" and idx is None and not first and lst.over and all(isinstance(k, int) for k in lst.over) and sorted(lst.over) == list(range(len(lst.over))) and not lst.extra and pos_of is None and counted is None:
+            peel = sorted(lst.over)  # `for x in [a, *rest]`: the exactly known leading elements one by one
         elif isinstance(lst, ListV) and length[0] != "?" and idx is not None or (isinstance(lst, ListV) and length[0] != "?" and first):
             peel = sorted(k for k in lst.over if isinstance(k, int))
             if first and 0 not in peel:
@@ -1017,8 +1096,8 @@ class Evaluator:
         rest_len = (length[0] - n_peeled, length[1]) if length[0] != "?" else length
         if isinstance(lst, ListV) and not peel and lst.over and any(isinstance(k, int) for k in lst.over):
             gen_elem = Deg(lst.elem())
-        e1 = body(e0, gen_elem, skips=bool(once))
-        e2 = body(e1, gen_elem, skips=bool(once))
+        e1 = body(e0, gen_elem, skips=bool(once) or plist is not None)
+        e2 = body(e1, gen_elem, skips=bool(once) or plist is not None)
         self.config = saved_cfg
         once_given = [nm for nm, eq in once.values() if not (isinstance(env.get(nm), Other) and env[nm].is_none)]
         n_iter = None
@@ -1105,7 +1184,9 @@ def _len_test(t, env=None) -> Optional[int]:
         a0 = t.left.args[0] if t.left.args else None
         if env is not None and isinstance(a0, ast.Name) and isinstance(env.get(a0.id), ListV):
             a, b = env[a0.id].length
-            if a != "?" and b != 0 and (k - a) % b == 0:
+            if a == "?":
+                return "?"  # the branch fixes N, but the analysis no longer knows how
+            if b != 0 and (k - a) % b == 0:
                 return (k - a) // b
             return None
         return k
@@ -1202,6 +1283,8 @@ def run_homogeneity(ctx: Ctx, rule="HOMOGENEITY", only_modules=None):
         for node, v, nfix in degs:
             n += 1
             got, exp = v.v, expected
+            if nfix == "?":
+                raise AnalysisError(f"{rule}: `{src(node)[:60]}` in {qname} [{cfg}] sits under a test on the length of a list whose length the analysis lost; cannot decide")
             if nfix is not None:
                 got, exp = subst_n(got, nfix), subst_n(exp, nfix)
             ok = got == exp
